@@ -264,3 +264,38 @@ theorem erun_reach (cfg : Cfg V) (atomic : Bool) (p : Plan) (evs : List Ev) :
       exact ⟨l ++ [ev], by rw [hl]; simp [run, List.foldl_append]⟩
 
 end Exec
+
+namespace Exec
+open Sched
+variable {V : Type}
+
+/-- every `begin` of the list happens while no step is open (in the un-serialised run): the steps that share the
+compute-framework object never overlap -/
+def QuietBegins (cfg : Cfg V) (p : Plan) : ESt V → List Ev → Prop
+  | _, [] => True
+  | e, ev :: rest =>
+    (match ev with
+     | .begin _ => anyOpen e.s = false
+     | _ => True) ∧ QuietBegins cfg p (estep cfg false p e ev) rest
+
+theorem estep_atomic_irrelevant (cfg : Cfg V) (p : Plan) (e : ESt V) (ev : Ev)
+    (h : match ev with | .begin _ => anyOpen e.s = false | _ => True) :
+    estep cfg true p e ev = estep cfg false p e ev := by
+  cases ev with
+  | begin i => simp only at h; simp [estep, h]
+  | scan i => rfl
+  | finish i => rfl
+  | fail i => rfl
+  | loopHead => rfl
+
+theorem erun_atomic_irrelevant (cfg : Cfg V) (p : Plan) (evs : List Ev) (e : ESt V) (h : QuietBegins cfg p e evs) :
+    erun cfg true p e evs = erun cfg false p e evs := by
+  induction evs generalizing e with
+  | nil => rfl
+  | cons ev rest ih =>
+    obtain ⟨h1, h2⟩ := h
+    simp only [erun, List.foldl_cons]
+    rw [estep_atomic_irrelevant cfg p e ev h1]
+    exact ih _ h2
+
+end Exec
